@@ -39,6 +39,9 @@ where
 
     callables: HandleTable<Procedure<Aux>>,
     _m: std::marker::PhantomData<&'a ()>,
+    /// number of instructions dispatched since the last `run` started
+    #[cfg(feature = "verif-hooks")]
+    pub verif_dispatches: u64,
 }
 
 pub fn get_table(value: &Value) -> Result<&CaoLangTable, ExecutionErrorPayload> {
@@ -83,6 +86,8 @@ impl<Aux> Vm<'_, Aux> {
             max_instr: 1000,
             remaining_iters: 0,
             _m: Default::default(),
+            #[cfg(feature = "verif-hooks")]
+            verif_dispatches: 0,
         };
         vm.register_native_stdlib().unwrap();
         Ok(vm)
@@ -379,6 +384,10 @@ impl<Aux> Vm<'_, Aux> {
                     *instr_ptr,
                     &self.runtime_data.call_stack,
                 ));
+            }
+            #[cfg(feature = "verif-hooks")]
+            {
+                self.verif_dispatches += 1;
             }
             let instr: u8 = unsafe { *bytecode_ptr.add(*instr_ptr) };
             let instr: Instruction = unsafe { transmute(instr) };
@@ -798,6 +807,10 @@ impl<Aux> Vm<'_, Aux> {
             .map_err(|pl| ExecutionError::new(pl, Default::default()))?;
 
         self.remaining_iters = self.max_instr;
+        #[cfg(feature = "verif-hooks")]
+        {
+            self.verif_dispatches = 0;
+        }
         let mut instr_ptr = 0;
         let result = self._run(&mut instr_ptr);
         self.runtime_data.current_program = std::ptr::null();
